@@ -56,7 +56,9 @@ let dispatch = function
       (match lib_parse b with
        | Some t -> raw_of t ^ " " ^ hex_of_bytes t.l_txid ^ " " ^ tok_of_tx (view t)
        | None -> "ERR") ^ " " ^ spec_part b
-  | ["api"; f] ->
+  | ["api"; f] | ["apif"; _; f] ->
+      (* apif: the same fields in another argument form (list / tuple / hex strings / one bytes string for the witness
+         stack, ...): the model has no notion of argument form, the bytes are those of the fields *)
       let t = tx_of_tok f in
       let l = api_build t in
       (match lib_raw l with
